@@ -33,7 +33,7 @@ def closed_form_data(sols, n, subs, nvals):
     k = max(ks) if ks else 0
     specials = []
     for i in range(k):
-        specials.append([sp.nsimplify(sp.simplify(s.subs(subs).subs(n, i) if subs else s.subs(n, i))) for s in sols])
+        specials.append([exppoly.exact(s.subs(subs).subs(n, i) if subs else s.subs(n, i)) for s in sols])
     dec = [exppoly.decompose(g, n) for g in gens_]
     consts = [c for row in specials for c in row]
     for d in dec:
@@ -56,7 +56,7 @@ def numeric_values(sols, n, subs, nvals):
         row = []
         for s in sols:
             v = s.subs(subs).subs(n, i) if subs else s.subs(n, i)
-            v = sp.nsimplify(sp.simplify(v))
+            v = exppoly.exact(v)
             if v.is_Rational:
                 row.append(f"{v.p}/{v.q}")
             else:
@@ -134,8 +134,8 @@ def task_solve(task):
             inst["values"] = numeric_values(comp, n, subs, task.get("nvals", 12))
         except Exception as e:  # noqa
             inst["values_error"] = str(e)
-        inst["A"] = [[str(sp.nsimplify(sp.sympify(x).subs(subs))) for x in row] for row in res["matrix"]]
-        inst["v"] = [str(sp.nsimplify(sp.sympify(x).subs(subs))) for x in res["vector"]]
+        inst["A"] = [[str(exppoly.exact(sp.sympify(x).subs(subs))) for x in row] for row in res["matrix"]]
+        inst["v"] = [str(exppoly.exact(sp.sympify(x).subs(subs))) for x in res["vector"]]
         res["instances"].append(inst)
     return res
 
